@@ -60,7 +60,8 @@ def read_config(path, error_out=None):
              if not x.startswith("_")]
     with open(path, "r") as f:
         for line in f.readlines():
-            items = line.split("=")
+            # Only the first '=' separates; the value may contain more.
+            items = line.split("=", 1)
             if len(items) < 2:
                 continue
             name, val = map(lambda x: x.strip(), items)
